@@ -197,6 +197,7 @@ func (include *Include) DeepCopy() *Include {
 		Optional:       include.Optional,
 		Internal:       include.Internal,
 		Excludes:       deepcopy.Slice(include.Excludes),
+		Aliases:        deepcopy.Slice(include.Aliases),
 		AdvancedImport: include.AdvancedImport,
 		Vars:           include.Vars.DeepCopy(),
 		Flatten:        include.Flatten,
